@@ -16,7 +16,9 @@ RULE = ("Hypothesis draws a target of exact TT-rank rho (gauss/float cores, rank
         "an initial tensor teneva.rand(n, r0, seed) and a regime: fixed rank (dr_min=dr_max=0, r0 = rho profile, nswp 3..5) or growth "
         "(r0=1, 1<=dr_min<=dr_max<=2, nswp >= max rho+1); with/without cache; with/without validation data. Oracle: dense target; "
         "a second uncached run for the cache-transparency relations; independent recomputation of info values; an independent run with "
-        "nswp-1 sweeps for the 'previous sweep' tensor. Non-trivial = max rho >= 2 or growth regime; distinct by SHA-1 of the case.")
+        "nswp-1 sweeps for the 'previous sweep' tensor. Sub-check info_stops: runs ended in every documented way (e, e with a sweep cap, nswp, nswp=0, "
+        "e_vld reached / already met by a warm start, budget m, cache 'conv'), from rank-1 / rho / over-ranked starts (ranks no unfolding can carry), "
+        "validation data with or without a threshold, no callback, no log: info['r'], info['e_vld'], info['m'] recomputed from the returned tensor. Non-trivial = max rho >= 2 or growth regime; distinct by SHA-1 of the case.")
 TOLERANCES = ("||dense(Y)-T|| <= 1e-7 ||T|| when every unfolding of the target has condition number (on its numerical rank) <= 1e6, else only "
               "well-formedness; cached vs plain cores bit-identical; info['e'] inside the rounding interval of a Gram-based relative distance")
 ASSUMPTIONS = ["targets drawn from a continuous distribution (the property says 'almost all')", "d >= 2",
@@ -163,6 +165,84 @@ def prop_cross(case, ctx):
         ctx.check(abs(ic["e"] - ip["e"]) == 0 and ic["r"] == ip["r"], "info['e'] / info['r'] differ with a cache")
 
 
+# ---------------------------------------------------------------------------------------------------------------------
+# info values under every way a run can end (no callback, no log): 'the validation error and effective rank reported in
+# info are those of the returned tensor' for all initial ranks (also ranks no unfolding can carry), all sweep counts
+# (also 0) and validation data given with or without a validation threshold
+@st.composite
+def stop_cases(draw, tier):
+    T = draw(gen.tt_specs(d_max=4 if tier == "quick" else 5, n_max=5, r_max=3, size_max=1024, families=("gauss", "float"),
+                          rank_families=("rank1", "uniform", "ragged")))
+    return {"T": T, "y0": draw(st.sampled_from(["one", "rho", "over", "over"])), "r_over": draw(st.integers(2, 6)),
+            "y0seed": draw(st.integers(0, 10 ** 6)), "vseed": draw(gen.seeds), "vld": draw(st.sampled_from([True, True, False])),
+            "stop": draw(st.sampled_from(["e", "e_nswp", "nswp0", "nswp", "e_vld", "e_vld_met", "m"])),
+            "cache": draw(st.booleans()), "dr": draw(st.sampled_from([(0, 0), (1, 1), (1, 2), (0, 1)])),
+            "nswp": draw(st.integers(1, 4)), "m": draw(st.integers(1, 400)), "scale10": draw(st.sampled_from([0, 0, 3, -3, 40, -40]))}
+
+
+def prop_stops(case, ctx):
+    Tspec = case["T"]
+    T = gen.build_tt(Tspec)
+    T[0] = T[0] * 10.0 ** case["scale10"]
+    n = Tspec["n"]
+    d = len(n)
+    F = dense(T)
+    rng = np.random.default_rng(case["vseed"])
+    I_vld = y_vld = None
+    if case["vld"] or case["stop"] in ("e_vld", "e_vld_met"):
+        I_vld = np.vstack([rng.integers(0, k, size=9) for k in n]).T
+        y_vld = F[tuple(I_vld.T)]
+        if not np.any(y_vld):
+            return ctx.label("zero_validation_values")
+    if case["y0"] == "one":
+        Y0 = ctx.lib(teneva.rand, n, 1, seed=case["y0seed"])
+    elif case["y0"] == "rho":
+        Y0 = ctx.lib(teneva.rand, n, Tspec["r"], seed=case["y0seed"])
+    else:
+        Y0 = ctx.lib(teneva.rand, n, case["r_over"], seed=case["y0seed"])
+    if case["stop"] == "e_vld_met":
+        # a warm start that already meets the validation threshold: the target itself (re-parametrised by a truncation)
+        Y0 = [G.copy() for G in T]
+    feasible = all(r <= min(int(np.prod(n[:k])), int(np.prod(n[k:]))) for k, r in enumerate(oracle.ranks_of(Y0)[1:-1], 1))
+    kw = {"e": dict(e=1e-9), "e_nswp": dict(e=1e-9, nswp=50), "nswp0": dict(nswp=0), "nswp": dict(nswp=case["nswp"]),
+          "e_vld": dict(e_vld=1e-6, nswp=30), "e_vld_met": dict(e_vld=1e-3, nswp=5), "m": dict(m=case["m"])}[case["stop"]]
+    if case["stop"] in ("e", "e_nswp", "e_vld") and case["dr"] == (0, 0) and case["y0"] == "one":
+        kw["nswp"] = min(kw.get("nswp") or 6, 6)
+    info = {}
+    f = Objective(F, max_calls=3000)
+    cache = {} if case["cache"] else None
+    Y = ctx.lib(teneva.cross, f, Y0, dr_min=case["dr"][0], dr_max=case["dr"][1], info=info, cache=cache, I_vld=I_vld, y_vld=y_vld,
+                **({"m_cache_scale": 1e9} if kw.get("nswp") is not None else {}), **kw)   # (a budget-only cached run needs the 'conv' stop to end)
+    if f.runaway:
+        return ctx.label("runaway")
+    ctx.label("stop_arg:" + case["stop"], "stopped:" + str(info.get("stop")), "y0:" + case["y0"], "feasible" if feasible else "over_ranked_start",
+              "vld" if I_vld is not None else "novld", "cache" if case["cache"] else "nocache", f"scale=1e{case['scale10']}")
+    ctx.nontrivial(not feasible or I_vld is not None)
+    why = oracle.wellformed(Y, n)
+    ctx.check(why is None, f"cross: result not well-formed: {why}", stop=info.get("stop"))
+    ctx.check(info.get("stop") in ("e", "nswp", "e_vld", "m", "conv"), "cross returned without a documented stop reason", stop=info.get("stop"))
+    er = oracle.erank_ref(Y)
+    ctx.check(abs(info["r"] - er) <= 1e-9 * er, "info['r'] is not the effective rank of the returned tensor", got=info["r"], ref=er,
+              stop=info["stop"], nswp=info["nswp"], ranks=oracle.ranks_of(Y), ranks0=oracle.ranks_of(Y0))
+    ctx.check(info["m"] == f.evaluated, "info['m'] differs from the number of evaluated indices", m=info["m"], evaluated=f.evaluated)
+    if I_vld is None:
+        ctx.check(info["e_vld"] == -1, "info['e_vld'] should be -1 without validation data", got=info["e_vld"])
+    else:
+        vals = dense(Y)[tuple(I_vld.T)]
+        tv = (K_of(Y) * EPS * dense_abs(Y))[tuple(I_vld.T)]
+        ny = float(np.linalg.norm(y_vld))
+        ref = float(np.linalg.norm(vals - y_vld) / ny)
+        ctx.check(abs(info["e_vld"] - ref) <= float(np.linalg.norm(tv) / ny) * 4 + 1e-12 * ref,
+                  "info['e_vld'] is not the validation error of the returned tensor", got=info["e_vld"], ref=ref, stop=info["stop"], nswp=info["nswp"])
+        if info["stop"] == "e_vld":
+            ctx.check(info["e_vld"] < kw["e_vld"], "stopped on the validation threshold with a larger reported error", got=info["e_vld"], thr=kw.get("e_vld"))
+    if case["stop"] == "nswp0":
+        ctx.check(info["stop"] == "nswp" and info["nswp"] == 0, "nswp=0 did not end with stop='nswp' after zero sweeps", stop=info["stop"], nswp=info["nswp"])
+    if case["stop"] == "nswp":
+        ctx.check(info["stop"] == "nswp" and info["nswp"] == case["nswp"], "did not run the requested number of sweeps", stop=info["stop"], nswp=info["nswp"])
+
+
 SUBCHECKS = [
     Sub("cross_exact", prop_cross, strategy=cross_cases, quick=200, thorough=2000),
+    Sub("info_stops", prop_stops, strategy=stop_cases, quick=400, thorough=4000),
 ]
